@@ -38,6 +38,8 @@ def run(ctx):
 
     join = c11.in_background(mc)
     total = 0
+    pool, rough = [], []
+    prng = c11.random.Random(ctx.seed * 31337)
     try:
         # the dedicated family: equal timestamps, more than a dozen updates per parent
         fam = vlib.tlc_gen(ctx, "OsmHistoryFamily", "OsmHistoryFamily_q.cfg" if quick else "OsmHistoryFamily_t.cfg")
@@ -52,7 +54,16 @@ def run(ctx):
             cases = c11.make_cases(ctx, hs, opts, runs=Rm, per_history=per, salt=200 + n)
             vlib.log("  %s: %d histories -> %d cases x %d runs" % (cfg, len(hs), len(cases), Rm))
             total += len(cases)
+            pool += prng.sample(cases, min(len(cases), 600))
             c11.run_and_judge(ctx, binpath, cases, "c12", chunk=20000)
+        # call sequences: equal calls in one process must agree whatever was called in between (some calls fail part
+        # way: unrestricted histories without the ignore options)
+        hs, opts = c11.gen_histories(ctx, "OsmHistory_gen_any_q.cfg", workers=4)
+        rough = prng.sample(c11.make_cases(ctx, hs, opts, runs=1, per_history=1, salt=300), 600)
+        seqs = c11.make_sequences(ctx, pool + rough, rough, 600 if quick else 5000)
+        vlib.log("  sequences: %d call histories x %d calls" % (len(seqs), len(seqs[0]["steps"])))
+        c11.run_sequences(ctx, binpath, seqs, "seq12")
+        ctx.extra["call_sequences"] = len(seqs)
         rc = c11.random_cases(ctx, binpath, 400 if quick else 3000, runs=R, kids=10, vers=6, pars=4)
         c11.run_and_judge(ctx, binpath, rc, "c12", chunk=20000)
     finally:
